@@ -202,10 +202,14 @@ Definition rx_case_ok (c : rxcase) : bool :=
 
 (* ====================================================================== *)
 (* MUC: Channel.JoinPresence / LeavePresence and Client.HandlePresence     *)
-(* (pinned behaviour; muc/* belongs to the C18 engineer)                   *)
 (* ====================================================================== *)
 
-(* One Channel: its single join attempt (Client.JoinPresence creates the
+(* [fx = true]: the code after "fix: muc: do not lose the departure
+   notification when it arrives before Leave waits for it" (the depart channel
+   has capacity 1, LeavePresence drops a stale token when it starts).
+   [fx = false]: the pinned design (unbuffered depart channel).
+
+   One Channel: its single join attempt (Client.JoinPresence creates the
    channel and calls Channel.JoinPresence once) and any number of Leave calls.
    The goroutine each call starts to send its presence and to wait for an
    error reply is a call of C06/Model.v; here it appears only through
@@ -219,7 +223,10 @@ Inductive mpc :=
 | MWait             (* in the final select: errChan / joinChan or depart / ctx.Done *)
 | MRet (o : mout).
 
-Record mcall := mkmcall { m_kind : mkind; m_canc : bool; m_pc : mpc; m_err : bool (* error reply offered on errChan *) }.
+Record mcall := mkmcall {
+  m_kind : mkind; m_canc : bool; m_pc : mpc;
+  m_err : bool;    (* error reply offered on errChan *)
+  m_pre : bool }.  (* ghost: the call started before the room's unavailable presence was handled *)
 
 Inductive mhpc :=
 | MHIdle
@@ -232,14 +239,16 @@ Record mucstate := mkmuc {
   mu_joinbuf : option nat;     (* channel.join, capacity 1: the joinCtx of call j, if any *)
   mu_h : mhpc;
   mu_user : nat;               (* HandleUserPresence invocations *)
-  mu_lost : nat;               (* depart notifications that found no receiver *)
-  mu_gone : bool }.            (* the room's entry was deleted (unavailable presence handled) *)
+  mu_lost : nat;               (* depart notifications that were dropped *)
+  mu_gone : bool;              (* the room's entry was deleted (unavailable presence handled) *)
+  mu_dtok : bool;              (* a notification is buffered in channel.depart (fx only) *)
+  mu_drained : nat }.          (* buffered notifications discarded by a starting Leave call *)
 
-Definition muc_init : mucstate := mkmuc [] None MHIdle 0 0 false.
+Definition muc_init : mucstate := mkmuc [] None MHIdle 0 0 false false 0.
 
 Inductive muclabel :=
 | MStartJoin            (* JoinPresence: joinCtx put into the buffer, goroutine started *)
-| MStartLeave           (* LeavePresence: goroutine started *)
+| MStartLeave           (* LeavePresence: (fx: stale token dropped,) goroutine started *)
 | MEnter (c : nat)      (* the call enters its final select *)
 | MCancel (c : nat)
 | MCtx (c : nat)        (* the call's select takes ctx.Done *)
@@ -251,16 +260,18 @@ Inductive muclabel :=
 | MSkip                 (* inner select takes c.done: goto selectJoin *)
 | MUnavailArrive
 | MDepartTo (l : nat)   (* the non-blocking send finds Leave call l in its select *)
-| MDepartLost.          (* ... finds nobody: default branch *)
+| MDepartKept           (* ... finds nobody but room in the buffer (fx) *)
+| MDepartLost           (* ... is dropped: default branch *)
+| MDepartRecv (l : nat). (* Leave call l, in its select, takes the buffered notification *)
 
 Definition is_mret (p : mpc) : bool := match p with MRet _ => true | _ => false end.
 
-Definition set_mpc (c : mcall) (p : mpc) : mcall := mkmcall (m_kind c) (m_canc c) p (m_err c).
+Definition set_mpc (c : mcall) (p : mpc) : mcall := mkmcall (m_kind c) (m_canc c) p (m_err c) (m_pre c).
 
 Definition muc_set_calls (s : mucstate) (l : list mcall) : mucstate :=
-  mkmuc l (mu_joinbuf s) (mu_h s) (mu_user s) (mu_lost s) (mu_gone s).
+  mkmuc l (mu_joinbuf s) (mu_h s) (mu_user s) (mu_lost s) (mu_gone s) (mu_dtok s) (mu_drained s).
 Definition muc_set_h (s : mucstate) (h : mhpc) : mucstate :=
-  mkmuc (mu_calls s) (mu_joinbuf s) h (mu_user s) (mu_lost s) (mu_gone s).
+  mkmuc (mu_calls s) (mu_joinbuf s) h (mu_user s) (mu_lost s) (mu_gone s) (mu_dtok s) (mu_drained s).
 
 Definition mcall_step (s : mucstate) (i : nat) (f : mcall -> option mcall) : option mucstate :=
   match nth_error (mu_calls s) i with
@@ -278,27 +289,30 @@ Definition mctx_done (c : mcall) : bool := m_canc c || is_mret (m_pc c).
 Definition waiting_leave (c : mcall) : bool :=
   match m_kind c, m_pc c with MLeave, MWait => true | _, _ => false end.
 
-Definition muc_step (s : mucstate) (l : muclabel) : option mucstate :=
+Definition muc_step (fx : bool) (s : mucstate) (l : muclabel) : option mucstate :=
   match l with
   | MStartJoin =>
       match mu_calls s, mu_joinbuf s with
-      | [], None => Some (mkmuc [mkmcall MJoin false MSpawned false] (Some 0) (mu_h s) (mu_user s) (mu_lost s) (mu_gone s))
+      | [], None => Some (mkmuc [mkmcall MJoin false MSpawned false true] (Some 0) (mu_h s) (mu_user s)
+                                (mu_lost s) (mu_gone s) (mu_dtok s) (mu_drained s))
       | _, _ => None           (* one join attempt per channel in this model *)
       end
   | MStartLeave =>
       match mu_calls s with
       | [] => None             (* a Channel exists only through a join attempt *)
-      | _ => Some (muc_set_calls s (mu_calls s ++ [mkmcall MLeave false MSpawned false]))
+      | _ => Some (mkmuc (mu_calls s ++ [mkmcall MLeave false MSpawned false (negb (mu_gone s))])
+                         (mu_joinbuf s) (mu_h s) (mu_user s) (mu_lost s) (mu_gone s)
+                         false (if mu_dtok s then S (mu_drained s) else mu_drained s))
       end
   | MEnter c => mcall_step s c (fun x => match m_pc x with MSpawned => Some (set_mpc x MWait) | _ => None end)
-  | MCancel c => mcall_step s c (fun x => Some (mkmcall (m_kind x) true (m_pc x) (m_err x)))
+  | MCancel c => mcall_step s c (fun x => Some (mkmcall (m_kind x) true (m_pc x) (m_err x) (m_pre x)))
   | MCtx c => mcall_step s c (fun x => match m_pc x with
                                        | MWait => if m_canc x then Some (set_mpc x (MRet MCtxErr)) else None
                                        | _ => None
                                        end)
   | MErrReply c =>
       mcall_step s c (fun x => if is_mret (m_pc x) || m_err x then None
-                               else Some (mkmcall (m_kind x) (m_canc x) (m_pc x) true))
+                               else Some (mkmcall (m_kind x) (m_canc x) (m_pc x) true (m_pre x)))
   | MErrRecv c => mcall_step s c (fun x => match m_pc x with
                                            | MWait => if m_err x then Some (set_mpc x (MRet MErr)) else None
                                            | _ => None
@@ -313,8 +327,8 @@ Definition muc_step (s : mucstate) (l : muclabel) : option mucstate :=
       match mu_h s with
       | MHAvail =>
           match mu_joinbuf s with
-          | Some j => Some (mkmuc (mu_calls s) None (MHTaken j) (mu_user s) (mu_lost s) (mu_gone s))
-          | None => Some (mkmuc (mu_calls s) None MHIdle (S (mu_user s)) (mu_lost s) (mu_gone s))
+          | Some j => Some (mkmuc (mu_calls s) None (MHTaken j) (mu_user s) (mu_lost s) (mu_gone s) (mu_dtok s) (mu_drained s))
+          | None => Some (mkmuc (mu_calls s) None MHIdle (S (mu_user s)) (mu_lost s) (mu_gone s) (mu_dtok s) (mu_drained s))
           end
       | _ => None
       end
@@ -325,7 +339,7 @@ Definition muc_step (s : mucstate) (l : muclabel) : option mucstate :=
             match nth_error (mu_calls s) j with
             | Some x => match m_pc x with
                         | MWait => Some (mkmuc (upd (mu_calls s) j (set_mpc x (MRet MJoined)))
-                                               (mu_joinbuf s) MHIdle (mu_user s) (mu_lost s) (mu_gone s))
+                                               (mu_joinbuf s) MHIdle (mu_user s) (mu_lost s) (mu_gone s) (mu_dtok s) (mu_drained s))
                         | _ => None
                         end
             | None => None
@@ -346,27 +360,46 @@ Definition muc_step (s : mucstate) (l : muclabel) : option mucstate :=
       match mu_h s, mu_calls s with
       | MHIdle, _ :: _ =>
           if mu_gone s then None
-          else Some (mkmuc (mu_calls s) (mu_joinbuf s) MHUnavail (mu_user s) (mu_lost s) true)
+          else Some (mkmuc (mu_calls s) (mu_joinbuf s) MHUnavail (mu_user s) (mu_lost s) true (mu_dtok s) (mu_drained s))
       | _, _ => None
       end
   | MDepartTo l =>
+      (* a receiver blocked in its select: the buffer is empty *)
       match mu_h s with
       | MHUnavail =>
           match nth_error (mu_calls s) l with
-          | Some x => if waiting_leave x
+          | Some x => if waiting_leave x && negb (mu_dtok s)
                       then Some (mkmuc (upd (mu_calls s) l (set_mpc x (MRet MLeft)))
-                                       (mu_joinbuf s) MHIdle (mu_user s) (mu_lost s) (mu_gone s))
+                                       (mu_joinbuf s) MHIdle (mu_user s) (mu_lost s) (mu_gone s) (mu_dtok s) (mu_drained s))
                       else None
           | None => None
           end
       | _ => None
       end
+  | MDepartKept =>
+      match mu_h s with
+      | MHUnavail =>
+          if fx && negb (mu_dtok s) && negb (existsb waiting_leave (mu_calls s))
+          then Some (mkmuc (mu_calls s) (mu_joinbuf s) MHIdle (mu_user s) (mu_lost s) (mu_gone s) true (mu_drained s))
+          else None
+      | _ => None
+      end
   | MDepartLost =>
       match mu_h s with
       | MHUnavail =>
-          if existsb waiting_leave (mu_calls s) then None
-          else Some (mkmuc (mu_calls s) (mu_joinbuf s) MHIdle (mu_user s) (S (mu_lost s)) (mu_gone s))
+          (* pinned: nobody is receiving; repaired: the buffer is already full *)
+          if (if fx then mu_dtok s else negb (existsb waiting_leave (mu_calls s)))
+          then Some (mkmuc (mu_calls s) (mu_joinbuf s) MHIdle (mu_user s) (S (mu_lost s)) (mu_gone s) (mu_dtok s) (mu_drained s))
+          else None
       | _ => None
+      end
+  | MDepartRecv l =>
+      match nth_error (mu_calls s) l with
+      | Some x => if waiting_leave x && mu_dtok s
+                  then Some (mkmuc (upd (mu_calls s) l (set_mpc x (MRet MLeft)))
+                                   (mu_joinbuf s) (mu_h s) (mu_user s) (mu_lost s) (mu_gone s) false (mu_drained s))
+                  else None
+      | None => None
       end
   end.
 
@@ -385,7 +418,7 @@ Definition mcall_code (c : mcall) : mcode :=
 Record muccase := mkmuccase { mc_trace : list muclabel; mc_codes : list mcode; mc_user : nat; mc_handler : nat }.
 
 Definition muc_case_ok (c : muccase) : bool :=
-  match run muc_step muc_init (mc_trace c) with
+  match run (muc_step true) muc_init (mc_trace c) with
   | Some s => list_eqb mcode_eqb (map mcall_code (mu_calls s)) (mc_codes c) &&
               Nat.eqb (mu_user s) (mc_user c) &&
               Nat.eqb (match mu_h s with MHIdle => 0 | _ => 1 end) (mc_handler c)
@@ -393,8 +426,10 @@ Definition muc_case_ok (c : muccase) : bool :=
   end.
 
 (* ====================================================================== *)
-(* IBB: Conn.Read / handlePayload / Conn.Close / closeNoNotify             *)
-(* (pinned behaviour; ibb/* belongs to the C15 engineer)                   *)
+(* IBB, pinned design: Conn.Read / handlePayload / Conn.Close /            *)
+(* closeNoNotify as they were before the repairs (unbuffered readReady,    *)
+(* single test in Read, local Close leaves the stream registered).  Kept   *)
+(* for the _pinned_refuted witnesses; the code is modelled by [ibbf_step]. *)
 (* ====================================================================== *)
 
 (* One Conn.  Only what the reader's wait depends on is modelled: the number
@@ -510,5 +545,132 @@ Definition ibb_case_ok (c : ibbcase) : bool :=
   match run ibb_step ibb_init (ic_trace c) with
   | Some s => list_eqb rdout_eqb (ib_outs s) (ic_outs c) && Nat.eqb (rd_code (ib_rd s)) (ic_rd c) &&
               Nat.eqb (ib_buf s) (ic_buf c)
+  | None => false
+  end.
+
+(* ====================================================================== *)
+(* IBB, the code as it is now (after the repairs 97bbeef, 74610ee,         *)
+(* 3ea7094, c371b95): Conn.Read / handlePayload / closeRead                *)
+(* ====================================================================== *)
+
+(* readReady has capacity 1 and is notified by a non-blocking send, so a
+   token may be stale; Read loops: while the buffer is empty it releases the
+   lock, receives from readReady and re-tests, leaving the loop when the
+   channel is closed.  handlePayload holds readLock from its first statement
+   after the lookup to its return and refuses data when readClosed is set;
+   closeRead (both kinds of close) unregisters the stream and, under readLock,
+   sets readClosed and closes the channel. *)
+
+Inductive frd :=
+| FNone                      (* no Read call in progress *)
+| FChecked                   (* saw an empty buffer, released the lock; before the receive *)
+| FWaiting                   (* blocked in the receive *)
+| FWoken (open : bool).      (* received (open = false: channel closed); before re-locking *)
+
+Inductive fhpc :=
+| FHIdle
+| FHLocked (n : nat)         (* a data packet of n bytes: readLock taken; before the readClosed test *)
+| FHNotify                   (* data appended; before the non-blocking send *)
+| FHPanic.                   (* send on closed channel *)
+
+Record ibbfstate := mkibbf {
+  fb_buf : nat;
+  fb_tok : bool;               (* a token is buffered in readReady *)
+  fb_closed : bool;            (* readClosed: channel closed, stream unregistered *)
+  fb_rd : frd;
+  fb_h : fhpc;
+  fb_outs : list rdout;
+  fb_refused : nat }.          (* data packets refused under the lock because the stream was closed *)
+
+Definition ibbf_init : ibbfstate := mkibbf 0 false false FNone FHIdle [] 0.
+
+Inductive ibbflabel :=
+| FRead (cap : nat)      (* Read(b), len(b) = cap > 0: takes the lock; returns at once if data is buffered *)
+| FWait                  (* the receive from readReady *)
+| FWake (cap : nat)      (* re-lock; leave the loop (closed), read, or test again *)
+| FData (n : nat)        (* handlePayload finds the stream and takes readLock *)
+| FCheck                 (* readClosed test; sequence number, decoding, append *)
+| FNotify                (* the non-blocking send *)
+| FCloseRemote           (* close element from the peer: closeNoNotify -> closeRead *)
+| FCloseLocal.           (* Conn.Close by the application -> closeRead *)
+
+Definition rd_take (s : ibbfstate) (cap : nat) : ibbfstate :=
+  let n := Nat.min cap (fb_buf s) in
+  mkibbf (fb_buf s - n) (fb_tok s) (fb_closed s) FNone (fb_h s) (fb_outs s ++ [RdData n]) (fb_refused s).
+
+Definition fb_set_rd (s : ibbfstate) (r : frd) : ibbfstate :=
+  mkibbf (fb_buf s) (fb_tok s) (fb_closed s) r (fb_h s) (fb_outs s) (fb_refused s).
+
+Definition close_read (s : ibbfstate) : ibbfstate :=
+  mkibbf (fb_buf s) (fb_tok s) true
+         (match fb_rd s with FWaiting => FWoken false | p => p end)
+         (fb_h s) (fb_outs s) (fb_refused s).
+
+Definition ibbf_step (s : ibbfstate) (l : ibbflabel) : option ibbfstate :=
+  match l with
+  | FRead cap =>
+      match fb_rd s, cap, fb_h s with
+      | FNone, S _, FHIdle =>
+          if Nat.eqb (fb_buf s) 0 then Some (fb_set_rd s FChecked) else Some (rd_take s cap)
+      | _, _, _ => None
+      end
+  | FWait =>
+      match fb_rd s with
+      | FChecked =>
+          if fb_tok s then Some (mkibbf (fb_buf s) false (fb_closed s) (FWoken true) (fb_h s) (fb_outs s) (fb_refused s))
+          else if fb_closed s then Some (fb_set_rd s (FWoken false))
+          else Some (fb_set_rd s FWaiting)
+      | _ => None
+      end
+  | FWake cap =>
+      match fb_rd s, cap, fb_h s with
+      | FWoken o, S _, FHIdle =>
+          if Nat.eqb (fb_buf s) 0 then
+            if o then Some (fb_set_rd s FChecked)   (* stale token or empty packet: test again *)
+            else Some (mkibbf 0 (fb_tok s) (fb_closed s) FNone (fb_h s) (fb_outs s ++ [RdEOF]) (fb_refused s))
+          else Some (rd_take s cap)
+      | _, _, _ => None
+      end
+  | FData n =>
+      match fb_h s with
+      | FHIdle => if fb_closed s then None   (* stream unknown: item-not-found, nothing happens *)
+                  else Some (mkibbf (fb_buf s) (fb_tok s) (fb_closed s) (fb_rd s) (FHLocked n) (fb_outs s) (fb_refused s))
+      | _ => None
+      end
+  | FCheck =>
+      match fb_h s with
+      | FHLocked n =>
+          if fb_closed s
+          then Some (mkibbf (fb_buf s) (fb_tok s) (fb_closed s) (fb_rd s) FHIdle (fb_outs s) (S (fb_refused s)))
+          else Some (mkibbf (fb_buf s + n) (fb_tok s) (fb_closed s) (fb_rd s) FHNotify (fb_outs s) (fb_refused s))
+      | _ => None
+      end
+  | FNotify =>
+      match fb_h s with
+      | FHNotify =>
+          if fb_closed s then Some (mkibbf (fb_buf s) (fb_tok s) (fb_closed s) (fb_rd s) FHPanic (fb_outs s) (fb_refused s))
+          else match fb_rd s with
+               | FWaiting => Some (mkibbf (fb_buf s) (fb_tok s) (fb_closed s) (FWoken true) FHIdle (fb_outs s) (fb_refused s))
+               | _ => Some (mkibbf (fb_buf s) true (fb_closed s) (fb_rd s) FHIdle (fb_outs s) (fb_refused s))
+               end
+      | _ => None
+      end
+  | FCloseRemote | FCloseLocal =>
+      (* closeRead takes readLock, which the handler holds from FData to FNotify *)
+      match fb_h s with
+      | FHIdle => if fb_closed s then None else Some (close_read s)
+      | _ => None
+      end
+  end.
+
+Definition frd_code (p : frd) : nat :=
+  match p with FNone => 0 | FChecked => 1 | FWaiting => 2 | FWoken _ => 3 end.
+
+Record ibbfcase := mkibbfcase { fc_trace : list ibbflabel; fc_outs : list rdout; fc_rd : nat; fc_buf : nat }.
+
+Definition ibbf_case_ok (c : ibbfcase) : bool :=
+  match run ibbf_step ibbf_init (fc_trace c) with
+  | Some s => list_eqb rdout_eqb (fb_outs s) (fc_outs c) && Nat.eqb (frd_code (fb_rd s)) (fc_rd c) &&
+              Nat.eqb (fb_buf s) (fc_buf c)
   | None => false
   end.
